@@ -1,3 +1,153 @@
-(* placeholder while the model is validated *)
-From Coq Require Import NArith List.
-From Morfuse Require Import Base.Arr C18str.Model C18str.Spec.
+(* C18str/Properties.v — the property theorems of unit C18str (mfuse::str), and nothing else.
+   Every theorem is closed by [exact <lemma>] and followed by Print Assumptions. *)
+From Coq Require Import ZArith NArith List Bool.
+From Morfuse Require Import Base.Arr C18str.Model C18str.Spec C18str.Proofs.
+Import ListNotations.
+
+(* The full statement
+     forall nv ops, run nv ops = map Ok (spec_run nv ops)
+   ("after every operation every variable shows exactly the text and the length of an
+   independent byte string") is FALSE of the faithful model, because the code is wrong for
+   part of the alphabet: see the ..._refuted theorems below.  It holds for EVERY history in
+   the alphabet Spec.pre (a condition on the abstract values only): all variables among the
+   nv slots; no resize / reserve / assign(text, n); no a.append(a); no append of nothing to
+   an empty string; the non-const operator[] (with a non-zero byte), tolower and toupper on
+   non-empty strings only.  For such histories the model of the reference-counted storage
+   (EnsureAlloced with all its early returns and its reallocation path that leaves alloced
+   and len at 0, EnsureDataWritable, AddRef/DelRef, the raw copy/cat/copyn loops) never
+   crashes (no null m_data dereference, no store beyond an allocation) and after every
+   operation shows, for every variable, the c_str() and the length() of the specification's
+   byte string, and returns its operator[] / == / cmp / icmp results.  Since the
+   specification changes only the variable an operation names, strings that share storage
+   never observe each other's modifications. *)
+Theorem C18str_refines_bytes_on_safe_alphabet :
+  forall (nv : nat) (ops : list op),
+    safe nv ops = true -> run nv ops = map Ok (spec_run nv ops).
+Proof. exact run_refines_spec. Qed.
+Print Assumptions C18str_refines_bytes_on_safe_alphabet.
+
+(* the specification: an operation changes at most the variable it names *)
+Theorem C18str_spec_changes_only_the_target :
+  forall (a : abs) (o : op) (u : N),
+    target o <> Some u -> get (fst (spec_step a o)) u = get a u.
+Proof. exact spec_frame. Qed.
+Print Assumptions C18str_spec_changes_only_the_target.
+
+(* ---- the refuted part of the alphabet (each history behaves on the real code as in the
+   model: props/C18str.py re-runs them on every check) --------------------------------- *)
+Theorem C18str_full_alphabet_refuted :
+  exists nv ops, run nv ops <> map Ok (spec_run nv ops).
+Proof. exact full_alphabet_refuted. Qed.
+Print Assumptions C18str_full_alphabet_refuted.
+
+Theorem C18str_resize_grow_refuted :
+  run 1 [OSetLit 0 hello; OResize 0 8] <> map Ok (spec_run 1 [OSetLit 0 hello; OResize 0 8]).
+Proof. exact resize_grow_differs. Qed.
+Print Assumptions C18str_resize_grow_refuted.
+
+Theorem C18str_resize_shrink_refuted :
+  run 1 [OSetLit 0 hello; OResize 0 3] <> map Ok (spec_run 1 [OSetLit 0 hello; OResize 0 3]).
+Proof. exact resize_shrink_differs. Qed.
+Print Assumptions C18str_resize_shrink_refuted.
+
+Theorem C18str_resize_null_refuted :
+  run 1 [OResize 0 0] <> map Ok (spec_run 1 [OResize 0 0]).
+Proof. exact resize_null_differs. Qed.
+Print Assumptions C18str_resize_null_refuted.
+
+Theorem C18str_reserve_refuted :
+  run 1 [OSetLit 0 hello; OReserve 0 20] <> map Ok (spec_run 1 [OSetLit 0 hello; OReserve 0 20]).
+Proof. exact reserve_differs. Qed.
+Print Assumptions C18str_reserve_refuted.
+
+Theorem C18str_reserve_then_append_refuted :
+  run 1 [OSetLit 0 hello; OReserve 0 20; OAppendLit 0 [88%N]] <>
+  map Ok (spec_run 1 [OSetLit 0 hello; OReserve 0 20; OAppendLit 0 [88%N]]).
+Proof. exact reserve_append_differs. Qed.
+Print Assumptions C18str_reserve_then_append_refuted.
+
+Theorem C18str_assign_null_refuted :
+  run 1 [OAssignN 0 []] <> map Ok (spec_run 1 [OAssignN 0 []]).
+Proof. exact assign_null_differs. Qed.
+Print Assumptions C18str_assign_null_refuted.
+
+Theorem C18str_assign_after_growth_refuted :
+  run 1 [OSetLit 0 [104; 105]%N; OAppendLit 0 hello_world; OAssignN 0 [120%N]] <>
+  map Ok (spec_run 1 [OSetLit 0 [104; 105]%N; OAppendLit 0 hello_world; OAssignN 0 [120%N]]).
+Proof. exact assign_after_growth_differs. Qed.
+Print Assumptions C18str_assign_after_growth_refuted.
+
+Theorem C18str_append_empty_to_empty_refuted :
+  run 1 [OAppendLit 0 []] <> map Ok (spec_run 1 [OAppendLit 0 []]).
+Proof. exact append_empty_differs. Qed.
+Print Assumptions C18str_append_empty_to_empty_refuted.
+
+Theorem C18str_append_str_empty_to_empty_refuted :
+  run 2 [OAppendStr 0 1] <> map Ok (spec_run 2 [OAppendStr 0 1]).
+Proof. exact append_str_empty_differs. Qed.
+Print Assumptions C18str_append_str_empty_to_empty_refuted.
+
+Theorem C18str_self_append_refuted :
+  run 1 [OSetLit 0 [97; 98]%N; OAppendStr 0 0] <>
+  map Ok (spec_run 1 [OSetLit 0 [97; 98]%N; OAppendStr 0 0]).
+Proof. exact self_append_differs. Qed.
+Print Assumptions C18str_self_append_refuted.
+
+Theorem C18str_index_on_shared_empty_refuted :
+  run 2 [OSetLit 0 abc; OMinus 0 3; OCopy 1 0; OSetChar 0 0 65] <>
+  map Ok (spec_run 2 [OSetLit 0 abc; OMinus 0 3; OCopy 1 0; OSetChar 0 0 65]).
+Proof. exact index_shared_empty_differs. Qed.
+Print Assumptions C18str_index_on_shared_empty_refuted.
+
+Theorem C18str_tolower_on_shared_empty_refuted :
+  run 2 [OSetLit 0 abc; OCap 0 0; OCopy 1 0; OLower 0] <>
+  map Ok (spec_run 2 [OSetLit 0 abc; OCap 0 0; OCopy 1 0; OLower 0]).
+Proof. exact tolower_shared_empty_differs. Qed.
+Print Assumptions C18str_tolower_on_shared_empty_refuted.
+
+(* ---- non-vacuity: concrete histories ------------------------------------------------------ *)
+
+(* a history of the alphabet in which three variables share storage and then diverge:
+   v0 = "abc"; v1 = v0; copy-construct v2 from v1; v1[0] = 'X' (copy on write); v2.append('!');
+   v0.tolower() on "abc" (v0 is the last owner of the original storage); v1.append(v2);
+   v0.CapLength(1); v2 -= 2; compare v0 with v1; read v1[3] *)
+Example C18str_history_is_safe :
+  safe 3 [OSetLit 0 abc; OCopy 1 0; OCtorCopy 2 1; OSetChar 1 0 88; OAppendChar 2 33; OLower 0;
+          OAppendStr 1 2; OCap 0 1; OMinus 2 2; OCmp 0 1; OGetChar 1 3] = true.
+Proof. vm_compute. reflexivity. Qed.
+
+Example C18str_model_history :
+  run 3 [OSetLit 0 abc; OCopy 1 0; OCtorCopy 2 1; OSetChar 1 0 88; OAppendChar 2 33; OLower 0;
+         OAppendStr 1 2; OCap 0 1; OMinus 2 2; OCmp 0 1; OGetChar 1 3] =
+  [Ok (RNone, [(abc, 3); ([], 0); ([], 0)]);
+   Ok (RNone, [(abc, 3); (abc, 3); ([], 0)]);
+   Ok (RNone, [(abc, 3); (abc, 3); (abc, 3)]);
+   Ok (RNone, [(abc, 3); ([88; 98; 99]%N, 3); (abc, 3)]);
+   Ok (RNone, [(abc, 3); ([88; 98; 99]%N, 3); ([97; 98; 99; 33]%N, 4)]);
+   Ok (RNone, [(abc, 3); ([88; 98; 99]%N, 3); ([97; 98; 99; 33]%N, 4)]);
+   Ok (RNone, [(abc, 3); ([88; 98; 99; 97; 98; 99; 33]%N, 7); ([97; 98; 99; 33]%N, 4)]);
+   Ok (RNone, [([97]%N, 1); ([88; 98; 99; 97; 98; 99; 33]%N, 7); ([97; 98; 99; 33]%N, 4)]);
+   Ok (RNone, [([97]%N, 1); ([88; 98; 99; 97; 98; 99; 33]%N, 7); ([97; 98]%N, 2)]);
+   Ok (RCmp false 1%Z (-1)%Z, [([97]%N, 1); ([88; 98; 99; 97; 98; 99; 33]%N, 7); ([97; 98]%N, 2)]);
+   Ok (RChar 97, [([97]%N, 1); ([88; 98; 99; 97; 98; 99; 33]%N, 7); ([97; 98]%N, 2)])].
+Proof. vm_compute. reflexivity. Qed.
+
+(* what the model (and the real code) does on the first refuted history: after resize(8) the
+   text is empty while the length is 8; the specification keeps "hello" *)
+Example C18str_resize_in_the_model :
+  run 1 [OSetLit 0 hello; OResize 0 8] =
+  [Ok (RNone, [(hello, 5)]); Ok (RNone, [([], 8)])].
+Proof. vm_compute. reflexivity. Qed.
+
+Example C18str_resize_in_the_spec :
+  spec_run 1 [OSetLit 0 hello; OResize 0 8] =
+  [(RNone, [(hello, 5)]); (RNone, [(hello, 8)])].
+Proof. vm_compute. reflexivity. Qed.
+
+(* a.append(a) writes beyond its storage; appending nothing to a null string dereferences null *)
+Example C18str_self_append_in_the_model :
+  run 1 [OSetLit 0 [97; 98]%N; OAppendStr 0 0] = [Ok (RNone, [([97; 98]%N, 2)]); Crash Overflow].
+Proof. vm_compute. reflexivity. Qed.
+
+Example C18str_append_nothing_in_the_model : run 1 [OAppendLit 0 []] = [Crash NullDeref].
+Proof. vm_compute. reflexivity. Qed.
